@@ -801,6 +801,7 @@ static void op_addsched(actor *a, int p, int s)
         generr("stacked scheduler %d added twice", s);
     make_sched(x);
     x->created = 1;
+    __atomic_store_n(&x->host_pool, p + 1, __ATOMIC_SEQ_CST);
     int rc = ABT_pool_add_sched(G.pool[p].h, x->sh);
     CHECK_RC(rc, "ABT_pool_add_sched");
     stat_add("stacked_scheds", 1);
